@@ -3,4 +3,4 @@
 export GOFLAGS=-mod=mod GOPROXY=off ELKPATH=/repo
 p=$1; shift
 cd /verif/harness && go test -c -tags verif -o /verif/.build/$p.test ./props/$p || exit 2
-cd /verif/.build && env VERIF_EVIDENCE_OUT=/tmp/e_$p.json VERIF_FAIL_DIR=/tmp/fails "$@" ./$p.test -test.v 2>&1 | grep -v "^\s*[a-z_0-9]*\.go:[0-9]*: \[rapid\] draw" | tail -${TAIL:-30}
+cd /verif/.build && env VERIF_EVIDENCE_OUT=/tmp/e_$p.json VERIF_FAIL_DIR=/tmp/fails "$@" timeout -s QUIT ${TMO:-180} ./$p.test -test.v 2>&1 | grep -v "^\s*[a-z_0-9]*\.go:[0-9]*: \[rapid\] draw" | tail -${TAIL:-30}
